@@ -428,11 +428,16 @@ def splice_fn(text, spec=None, ret=None, loops=None, before=None, after=None, re
                     loop_idx.append((j, lb))
             j += 1
         fl = dict(forloops or [])
+        k_after = {id(g): True for kk, g in (loopends or []) if kk < 0}
+        loopends = [(abs(kk), g) for kk, g in (loopends or [])]
         for k, ghost in (loopends or []):
             if k > len(loop_idx):
                 raise Undecided(f"lost anchor: loop #{k} in {sel} (found {len(loop_idx)})")
             le0 = match_brace(ct, loop_idx[k - 1][1])
-            edits.append((ct[le0][2], "\n/*@GHOST-BEGIN loop-end %d*/\n" % k + "\n".join(ghost) + "\n/*@GHOST-END*/\n", 0))
+            if k_after.get(id(ghost)):
+                edits.append((ct[le0][3], "\n/*@GHOST-BEGIN after-loop %d*/\n" % k + "\n".join(ghost) + "\n/*@GHOST-END*/\n", 0))
+            else:
+                edits.append((ct[le0][2], "\n/*@GHOST-BEGIN loop-end %d*/\n" % k + "\n".join(ghost) + "\n/*@GHOST-END*/\n", 0))
         for k, inv in loops:
             if k > len(loop_idx):
                 raise Undecided(f"lost anchor: loop #{k} in {sel} (found {len(loop_idx)})")
@@ -528,6 +533,9 @@ def compose(template_text, repo_root, read_file):
                 elif s.startswith("//@LOOPEND"):
                     cur = []
                     loopends.append((int(s.split()[1]), cur))
+                elif s.startswith("//@AFTERLOOP"):     # ghost lines right after the closing brace of loop k
+                    cur = []
+                    loopends.append((-int(s.split()[1]), cur))
                 elif s.startswith("//@FORLOOP"):
                     parts = s.split()
                     forloops.append((int(parts[1]), parts[2]))
